@@ -29,16 +29,38 @@ type gzipResponseWriter struct {
 
 	buf            bytes.Buffer
 	bufferExceeded bool // Track if we exceeded max buffer size
+	headerSent     bool // Status line and headers have been passed on
+	hijacked       bool
 }
 
+// WriteHeader records the status. It is passed on only once it is known
+// whether the body will be compressed, because Content-Encoding and
+// Content-Length cannot be changed after the header has been sent.
 func (g *gzipResponseWriter) WriteHeader(code int) {
+	if code >= 100 && code < 200 && code != http.StatusSwitchingProtocols {
+		// Informational responses are forwarded at once; the final status follows
+		g.ResponseWriter.WriteHeader(code)
+		return
+	}
 	if g.wroteHeader {
 		return
 	}
 
 	g.statusCode = code
 	g.wroteHeader = true
-	g.ResponseWriter.WriteHeader(code)
+}
+
+// sendHeader passes the recorded status on to the client
+func (g *gzipResponseWriter) sendHeader() {
+	if g.headerSent || g.hijacked {
+		return
+	}
+	if !g.wroteHeader {
+		g.statusCode = http.StatusOK
+		g.wroteHeader = true
+	}
+	g.headerSent = true
+	g.ResponseWriter.WriteHeader(g.statusCode)
 }
 
 func (g *gzipResponseWriter) Write(b []byte) (int, error) {
@@ -47,6 +69,7 @@ func (g *gzipResponseWriter) Write(b []byte) (int, error) {
 		// Mark as exceeded and fall back to streaming uncompressed
 		if !g.bufferExceeded {
 			g.bufferExceeded = true
+			g.sendHeader()
 			// Flush existing buffer uncompressed
 			if g.buf.Len() > 0 {
 				_, _ = g.ResponseWriter.Write(g.buf.Bytes())
@@ -60,6 +83,11 @@ func (g *gzipResponseWriter) Write(b []byte) (int, error) {
 }
 
 func (g *gzipResponseWriter) Flush() {
+	if !g.headerSent {
+		// Still buffering: nothing has been passed on yet, and flushing the
+		// underlying writer now would commit the header before the decision.
+		return
+	}
 	if f, ok := g.ResponseWriter.(http.Flusher); ok {
 		f.Flush()
 	}
@@ -67,14 +95,29 @@ func (g *gzipResponseWriter) Flush() {
 
 func (g *gzipResponseWriter) Hijack() (net.Conn, *bufio.ReadWriter, error) {
 	if h, ok := g.ResponseWriter.(http.Hijacker); ok {
-		return h.Hijack()
+		conn, brw, err := h.Hijack()
+		if err == nil {
+			g.hijacked = true
+		}
+		return conn, brw, err
 	}
 	return nil, nil, fmt.Errorf("underlying ResponseWriter does not support hijacking")
 }
 
+// writePlain sends the buffered body unchanged
+func (g *gzipResponseWriter) writePlain(body []byte) error {
+	g.sendHeader()
+	if len(body) == 0 {
+		return nil
+	}
+	_, err := g.ResponseWriter.Write(body)
+	return err
+}
+
 func (g *gzipResponseWriter) Finish() error {
-	if !g.wroteHeader {
-		g.WriteHeader(http.StatusOK)
+	// The connection was taken over (websocket): nothing to finish
+	if g.hijacked {
+		return nil
 	}
 
 	// If buffer was exceeded, data was already streamed uncompressed
@@ -84,32 +127,35 @@ func (g *gzipResponseWriter) Finish() error {
 
 	body := g.buf.Bytes()
 
+	// Nothing to compress, or the backend already encoded the body
+	if len(body) == 0 || g.Header().Get("Content-Encoding") != "" {
+		return g.writePlain(body)
+	}
+
 	clHeader := g.Header().Get("Content-Length")
 	if clHeader != "" {
 		cl, err := strconv.Atoi(clHeader)
 		// if Content-Length header found and is less than the minSize then return the body as is.
 		if err == nil && cl < g.minSize {
-			_, err := g.ResponseWriter.Write(body)
-			return err
+			return g.writePlain(body)
 		}
 	}
 
 	// acts as a fallback when Content-Length is not available.
 	if len(body) < g.minSize {
-		_, err := g.ResponseWriter.Write(body)
-		return err
+		return g.writePlain(body)
 	}
 
 	// return body as is when Content-Type doesn't match specified in Config
 	ct := g.Header().Get("Content-Type")
 	if !matchesContentType(ct, g.contentTypes) {
-		_, err := g.ResponseWriter.Write(body)
-		return err
+		return g.writePlain(body)
 	}
 
 	g.Header().Set("Content-Encoding", "gzip")
 	// Remove Content-Length since compressed size differs from original
 	g.Header().Del("Content-Length")
+	g.sendHeader()
 
 	gz, err := gzip.NewWriterLevel(g.ResponseWriter, g.level)
 	if err != nil {
